@@ -159,6 +159,24 @@ example : openCommand [120, 32, 34, 97, 32, 98, 34] 5 [([75], [118])] =
     some { file := [120], argv := [[120], [97, 32, 98]], env := some [[75, 61, 118]], pipes := 5 } := by decide
 
 
+/-
+  OPEN: (run-time half of C20; needs a model of the kernel, which this framework does not have)
+    "for every executable, argument list, environment and redirection mask: the started child observes
+     argv = executable :: args.drop 1 and environ = the given environment, `join` returns the child's
+     exit code, every byte the child writes to a redirected output stream is returned by `read` before
+     end-of-file, and every byte given to `write` arrives on the child's stdin"
+  Proved below as `process_delivery_partial`: what `open`/`start` hand to execvpe (file, argv vector,
+  environment) and which pipes they request.  Missing: vfork/execvpe/pipe/dup2/waitpid/select/read/write
+  themselves -- that part is run against the real kernel by the correspondence check (ops `run`, `io`,
+  `exit`, `p`, `killtest`) and is tested, not proved.
+-/
+theorem process_delivery_partial (executable : Str) (args : List Str) (streams : Nat) (env : List (Str × Str)) :
+    openList executable args streams env =
+      some { file := executable, argv := executable :: args.drop 1,
+             env := if env = [] then none else some (env.map (fun kv => kv.1 ++ [61] ++ kv.2)),
+             pipes := streams % 8 } :=
+  argv_env_exact executable args streams env
+
 /-! ### environment of the own process -/
 
 /-- set / remove / look up: a variable that was set to a non-empty value is read back, a variable
